@@ -126,7 +126,12 @@ def run_one(rng, res: CaseResult):
         if t_dry:
             res.violate(f'dry=True wrote files into the target: {sorted(t_dry)[:5]}', witness=witness, facts={'tag': 'dry_wrote'})
             return
-        r3 = lab.run([dict(mig, dry=False)], data_dir=lab.root / 'src_data')
+        opt_mode = rng.random() < 0.3
+        if opt_mode:
+            # the migration is started by an interpreter in optimised mode (python -O): the same results have to arrive
+            res.count('migrations_run_with_python_O')
+            witness['migration_interpreter_flags'] = ['-O']
+        r3 = lab.run([dict(mig, dry=False)], data_dir=lab.root / 'src_data', py_flags=['-O'] if opt_mode else ())
         if session_problem(r3):
             res.inconclusive.append(session_problem(r3))
             return
